@@ -1591,7 +1591,7 @@ func checkCloseErrorsKept(c *Ctx, rule string) {
 		c.check(reaches && !wrongSide, rule, fmt.Sprintf("error of %s #%d in Request.close reaches the result", calleeName(cc), n), p.Pos(in.Pos()), "recorded when the result is still nil",
 			"the error of a handler object's Close is recorded only on the side where it is nil (or not at all): a failed Close is answered with SSH_FX_OK")
 	})
-	c.check(n >= 3, rule, "Close calls of Request.close", p.Pos(fn.Pos()), fmt.Sprintf("%d calls", n), fmt.Sprintf("only %d Close calls found in Request.close", n))
+	c.check(n >= 2, rule, "Close calls of Request.close", p.Pos(fn.Pos()), fmt.Sprintf("%d calls", n), fmt.Sprintf("only %d Close calls found in Request.close", n))
 }
 
 // checkHandlerObjectInOneSlot (C11.R18): an object a handler returned is put into one slot of the Request's state.  Put
